@@ -127,6 +127,20 @@ func genData(r *Rng, shape string, n int) []byte {
 				b = append(b, '\n')
 			}
 		}
+	case "accent":
+		// never-repeating short words, one letter out of five >= 0x80: text that the TEXT
+		// transform tends to expand
+		for len(b) < n {
+			l := 3 + r.Intn(6)
+			for j := 0; j < l; j++ {
+				if r.Intn(5) == 0 {
+					b = append(b, byte(0xC0+r.Intn(0x3F)))
+				} else {
+					b = append(b, byte('a'+r.Intn(26)))
+				}
+			}
+			b = append(b, ' ')
+		}
 	case "zeros":
 		b = make([]byte, n)
 	default: // random
@@ -138,7 +152,7 @@ func genData(r *Rng, shape string, n int) []byte {
 	return b[:n]
 }
 
-var dataShapes = []string{"text", "utf8", "dna", "exe", "mm", "runs", "skewed", "b64", "zeros", "random"}
+var dataShapes = []string{"text", "utf8", "dna", "exe", "mm", "runs", "skewed", "b64", "accent", "zeros", "random"}
 
 // ---------------------------------------------------------------- configuration
 type sCfg struct {
